@@ -43,31 +43,6 @@ theorem C14_process_eq_single_pass (c : Cfg) (h : c.WF) (hmode : c.doTimeFrame =
     (processData c recs).1.map (fun a => value a b) = (singlePass c recs).1.map (fun a => value a b) :=
   process_eq_singlePass c h.segs h.tofs h.seg h.tof hmode recs b
 
-/-- reading once does not look at the batch sizes -/
-theorem onePass_congr (c c' : Cfg) (h1 : c'.tpl = c.tpl) (h2 : c'.doTimeFrame = c.doTimeFrame)
-    (h3 : c'.storePrompts = c.storePrompts) (h4 : c'.delayedIncrement = c.delayedIncrement) (e : Int)
-    (recs : List Record) : ∀ more cur, onePass c' e more cur recs = onePass c e more cur recs := by
-  have hinc : ∀ ev, eventIncrement c' ev = eventIncrement c ev := by
-    intro ev; simp [eventIncrement, h3, h4]
-  induction recs with
-  | nil => intro _ _; rfl
-  | cons r rs ih =>
-    intro more cur
-    cases r with
-    | time t => rw [onePass, onePass]; simp only [h2, ih]
-    | event ev => rw [onePass, onePass]; simp only [h1, h2, hinc, ih]
-
-theorem onePassFrames_congr (c c' : Cfg) (h1 : c'.tpl = c.tpl) (h2 : c'.doTimeFrame = c.doTimeFrame)
-    (h3 : c'.storePrompts = c.storePrompts) (h4 : c'.delayedIncrement = c.delayedIncrement)
-    (h5 : c'.numEventsToStore = c.numEventsToStore) (fs : List (Int × Int)) :
-    ∀ cur recs, onePassFrames c' fs cur recs = onePassFrames c fs cur recs := by
-  induction fs with
-  | nil => intro _ _; rfl
-  | cons f fs ih =>
-    obtain ⟨s, e⟩ := f
-    intro cur recs
-    simp only [onePassFrames, onePass_congr c c' h1 h2 h3 h4, h2, h5, ih]
-
 /-- **batch-size independence**: any two admissible `num_segments_in_memory` / `num_TOF_bins_in_memory`
     give the same histograms (corollary of `C14_process_eq_single_pass`). -/
 theorem C14_batch_size_independent (c : Cfg) (n m n' m' : Int) (hn : 1 ≤ n) (hm : 1 ≤ m) (hn' : 1 ≤ n') (hm' : 1 ≤ m')
